@@ -8,7 +8,8 @@ from gen import c06 as G
 
 
 def norm(line):
-    return "ERR:internal" if line.startswith("ERR:internal") else line
+    # "CRASH rc=3": the harness printed ERR:internal and left with _exit(3) while run_sharded was running that case alone
+    return "ERR:internal" if line.startswith("ERR:internal") or line == "CRASH rc=3" else line
 
 
 def parse_case(case):
@@ -56,7 +57,8 @@ def oracle(case, tag, line):
     """Property C06 on ONE implementation output line -> list of (klass, text)."""
     bad = []
     if line.startswith("ERR:internal") or line.startswith("CRASH"):
-        if "validate_modes" in line:
+        c0 = parse_case(case)
+        if "validate_modes" in line or (line == "CRASH rc=3" and c0["dir"] == "O" and c0["hs"] == 2 and c0["st"] == 3):
             return [("retry-plaintext-policy-internal-error",
                      "an outgoing MSE attempt that fails before the peer's key arrives is retried as EncryptionPolicy(DENY, REQUIRE), "
                      "whose constructor throws internal_error (policy handshake=prefer, stream=require): " + line[:160])]
